@@ -11,7 +11,7 @@ if [ -f $D/demo.cpp ]; then
   (cd $D && g++ -std=c++17 demo.cpp -I $WT/include -I $WT/src -I $B/src/include $B/src/libUTAP.a -lxml2 -ldl -o /var/tmp/main-mt/demo 2>&1 | tail -3)
   (cd $D && /var/tmp/main-mt/demo > /var/tmp/main-mt/demo.out 2>&1; echo "demo rc WITH change = $?"; tail -2 /var/tmp/main-mt/demo.out)
 fi
-cd /verif && VERIF_REPO=$WT VERIF_CACHE=/var/tmp/main-mt/cache ./check $P 2>&1 | grep -v "KNOWN-FINDING" | cut -c1-260 | head -7
+cd /verif && VERIF_REPO=$WT VERIF_CACHE=/var/tmp/main-mt/cache ./check $P 2>&1 | grep -v "KNOWN-FINDING" | cut -c1-260 | head -9
 cd $WT && git checkout -q -- . && cmake --build $B 2>&1 | tail -1
 if [ -f $D/demo.cpp ]; then
   (cd $D && g++ -std=c++17 demo.cpp -I $WT/include -I $WT/src -I $B/src/include $B/src/libUTAP.a -lxml2 -ldl -o /var/tmp/main-mt/demo 2>&1 | tail -3; /var/tmp/main-mt/demo > /var/tmp/main-mt/demo.out 2>&1; echo "demo rc WITHOUT change = $?")
